@@ -131,7 +131,19 @@ def upload(n, style, last, odkind, how, seg_len=7, second=False):
         width = None
     else:
         od = C.odmod().ObjectDictionary()
-        if odkind == "bool":
+        sub_override = None
+        if odkind == "arr2":
+            # element of an array that is not listed one by one (created on demand from sub-index 1)
+            width = 2
+            od.add_object(C.mkarray("cells", 0x2000, [C.mkvar("n", 0x2000, 0, 0x05, "ro", default=8),
+                                                       C.mkvar("cell", 0x2000, 1, 0x06)]))
+            sub_override = 5
+        elif odkind == "rec4":
+            width = 4
+            od.add_object(C.mkrecord("rec", 0x2000, [C.mkvar("n", 0x2000, 0, 0x05, "ro", default=2),
+                                                     C.mkvar("a", 0x2000, 1, 0x05), C.mkvar("b", 0x2000, 2, 0x04)]))
+            sub_override = 2
+        elif odkind == "bool":
             width = 1             # BOOLEAN is a fixed-size (one byte) entry as well
             od.add_object(C.mkvar("flag", 0x2000, 0, 0x01))
         elif odkind == "real4" or odkind == "real8":
@@ -143,7 +155,7 @@ def upload(n, style, last, odkind, how, seg_len=7, second=False):
         else:
             width = None
             od.add_object(C.mkvar("text", 0x2000, 0, 0x09 if odkind == "str" else 0x0F))
-        idx, sub = 0x2000, 0
+        idx, sub = 0x2000, (sub_override if sub_override is not None else 0)
     rig = ClientRig(srv, od)
     client = rig.client
     _one_upload(rig, srv, idx, sub, n, style, last, width, how, seg_len, tag, "v")
@@ -566,7 +578,7 @@ def jobs(tier):
                     continue
                 out.append(dict(func="upload", params=dict(n=n, style=style, last=last, odkind="none", how=how),
                                 weight=n + 1))
-            for odkind in ("num1", "num2", "num3", "num4", "num8", "bool", "real4", "real8", "str", "dom"):
+            for odkind in ("num1", "num2", "num3", "num4", "num8", "bool", "real4", "real8", "arr2", "rec4", "str", "dom"):
                 if n > 12 and odkind not in ("str", "dom"):
                     continue
                 out.append(dict(func="upload", params=dict(n=n, style=style, last=last, odkind=odkind, how="api"),
